@@ -511,7 +511,8 @@ def build_extra():
 
     # ---- BallSave._schedule_balls
     C.cls("SystemWideDevice", fields={})
-    C.cls("ModeDevice", fields={})
+    C.cls("ModeDevice", file="mpf/core/mode_device.py", fields={})
+    C.fn("ModeDevice.device_removed_from_mode", inline=True, no_inv=True)
     C.cls("BallSave", file=BS, bases=["SystemWideDevice", "ModeDevice"], fields=dict(
         config=Rec(eject_delay=Int, delayed_eject_events=Seq(Str)), delay=common.DelayMgr, _scheduled_balls=Int),
         check_bases=False)
@@ -554,6 +555,22 @@ def build_extra():
                    "len(self.config['delayed_eject_events']) > 0 else (add_balls_now(balls_to_save) and "
                    "n_delay_adds() == 0 and self._scheduled_balls == old(self._scheduled_balls)))")],
          modifies=["self._scheduled_balls", "self.delay.pending.**"], raises={})
+
+    C.ext("BallSave.disable", model=lambda I, env, a, k: (emit(I, "save.disable"), NONE)[1],
+          trusted_reason="BallSave.disable: stops saving further balls (removes its own 'disable' / 'hurry_up' / 'grace' "
+                         "timers by name)")
+    C.fn("BallSave.delayed_eject", inline=True, no_inv=True)
+    C.helpers["pending_requests_kept"] = lambda I: VBool(not [e for e in I.cur_trace()
+                                                              if e.name in ("delay.clear", "delay.remove", "delay.add")])
+    C.helpers["n_disabled"] = lambda I: VInt(len(events_named(I, "save.disable")))
+    C.trace_helpers |= {"pending_requests_kept", "n_disabled"}
+    C.fn("BallSave.device_removed_from_mode", params=dict(mode=Opaque("Mode")),
+         ensures=[("BS2: when its mode ends the ball save stops saving - but a ball it has ALREADY saved is still owed to "
+                   "the playfield: the pending eject-delay requests are left to fire (not cleared with the mode), and balls "
+                   "waiting for a delayed-eject event are requested at once",
+                   "n_disabled() == 1 and pending_requests_kept() and (add_balls_now(old(self._scheduled_balls)) and "
+                   "self._scheduled_balls == 0 if len(self.config['delayed_eject_events']) > 0 else n_add_balls() == 0)")],
+         modifies=["self._scheduled_balls", "self.mode"], raises={})
 
     # ---- the search along the eject chain
     C.cls("TargetDevice", fields=dict(name=Str, available_balls=Int))
@@ -655,8 +672,98 @@ def build_extra():
                    "branch leaves nothing behind)", "same_path_for_every_source()")],
          modifies=[], raises={}, bounded="BOUNDED: at most 2 source devices, caller paths of length 0..2")
     C.only_verify = ["BallSave._schedule_balls", "OutgoingBallsHandler.find_available_ball_in_path",
-                     "BallDevice.find_one_available_ball"]
-    return [C, incoming_set()]
+                     "BallDevice.find_one_available_ball", "BallSave.device_removed_from_mode"]
+    return [C, incoming_set(), multiball_set()]
+
+
+MB = "mpf/devices/multiball.py"
+
+
+def multiball_set():
+    """Multiball.start: the balls of a multiball are requested from its locks only as far as the locks can still GIVE
+    them (available_balls: balls no other eject has claimed) - a lock has no source of its own, so a request beyond that
+    would sit in its queue forever (and steal the next ball locked) - and the rest from the default source"""
+    C = ContractSet("C05m", "multiball start requests balls that can be served")
+    C.strings = False
+    for b in ("EnableDisableMixin", "SystemWideDevice", "ModeDevice"):
+        C.cls(b, fields={})
+    C.cls("LockI", fields=dict(balls=Int, available_balls=Int))
+
+    def locks(I, name):
+        out = []
+        for i in range(I.ctx.fork(3)):
+            o = I.fresh(ObjS("LockI"), "%s[%d]" % (name, i))
+            r = I.force(o).ref
+            I.ctx.assume(z3.And(I.force(I.read_field(r, "available_balls")).t >= 0,
+                                I.force(I.read_field(r, "available_balls")).t <= I.force(I.read_field(r, "balls")).t))
+            out.append(o)
+        return I.new_list(out, name)
+    C.cls("PlayfieldI", fields={})
+    C.ext("PlayfieldI.add_ball", model=lambda I, env, a, k: (emit(I, "add_ball", balls=k.get("balls", a[0] if a else NONE),
+                                                                  source=k.get("source_device", NONE)), NONE)[1],
+          trusted_reason="Playfield.add_ball (C04 P8): queues that many ball requests at the source device (default "
+                         "source when none is given)")
+    C.cls("TemplateI", fields=dict(value=Int))
+    C.ext("TemplateI.evaluate", model=lambda I, env, a, k: I.read_field(env["self"].ref, "value"), pure=True,
+          trusted_reason="template evaluation (C16)")
+    common.declare_events(C)
+    C.cls("Multiball", file=MB, bases=["EnableDisableMixin", "SystemWideDevice", "ModeDevice"], check_bases=False,
+          fields=dict(enabled=Bool, balls_live_target=Int, balls_added_live=Int, shoot_again=Bool, name=Str,
+                      ball_locks=Init(locks), source_playfield=ObjS("PlayfieldI"),
+                      config=Rec(shoot_again=ObjS("TemplateI")),
+                      machine=ObjS("MachineController", events=ObjS("EventManager"))))
+
+    def handle_bip(I, env, a, k):
+        this = env["self"].ref
+        n = z3.Int(I.fresh_name("balls_added_live"))
+        I.ctx.assume(n >= 0)
+        I.write_field(this, "balls_added_live", VInt(n))
+        I.write_field(this, "balls_live_target", VInt(z3.Int(I.fresh_name("balls_live_target"))))
+        return NONE
+    C.ext("Multiball._handle_balls_in_play_and_balls_live", model=handle_bip,
+          trusted_reason="works out how many balls this multiball adds (balls_added_live >= 0) from the ball count "
+                         "policy and the balls in play")
+    for m_ in ("stop", "_timer_start", "debug_log"):
+        C.ext("Multiball." + m_, model=common.noop, trusted_reason="shoot-again timers / logging")
+    C.ext("EventManager.add_handler", model=common.noop, trusted_reason="registers the shoot-again drain handler (C01)")
+
+    def served(I):
+        this = I.frames[0].env["self"].ref
+        want = I.force(I.read_field(this, "balls_added_live")).t
+        lks = [I.force(x).ref for x in I.container(I.force(I.read_field(this, "ball_locks")).ref).items]
+        evs = events_named(I, "add_ball")
+        total = z3.IntVal(0)
+        conj = []
+        per_lock = {id(l): z3.IntVal(0) for l in lks}
+        for e in evs:
+            n = I.force(e.args["balls"]).t
+            conj.append(n >= 0)
+            total = total + n
+            src = I.force(e.args["source"])
+            if src.tag == "obj":
+                if id(src.ref) not in per_lock:
+                    return VBool(False)
+                per_lock[id(src.ref)] = per_lock[id(src.ref)] + n
+            elif src.tag != "none":
+                return VBool(False)
+        for l in lks:
+            conj.append(per_lock[id(l)] <= I.force(I.read_field(l, "available_balls", heap=I.old_heap)).t)
+        conj.append(total == want)
+        return VBool(z3.And(conj))
+    C.helpers["requests_can_be_served"] = served
+    C.helpers["n_requests"] = lambda I: VInt(len(events_named(I, "add_ball")))
+    C.trace_helpers = {"requests_can_be_served", "n_requests"}
+    C.fn("Multiball.start",
+         loops_by_text={"self.ball_locks": LoopSpec(invariant=[], unroll=True)},
+         ensures=[("MB1: a started multiball requests exactly the balls it adds; from each lock at most the balls that "
+                   "lock can still give (available_balls - not the balls physically in it, some of which another eject "
+                   "may have claimed already), the rest from the default source",
+                   "implies(old(self.enabled) and old(self.balls_live_target) <= 0, requests_can_be_served())"),
+                  ("a disabled or already running multiball requests nothing",
+                   "implies(not old(self.enabled) or old(self.balls_live_target) > 0, n_requests() == 0)")],
+         modifies=["self.shoot_again", "self.balls_added_live", "self.balls_live_target"], raises={}, skip_frame=True,
+         bounded="BOUNDED: at most 2 ball locks")
+    return C
 
 
 IBH = "mpf/devices/ball_device/incoming_balls_handler.py"
